@@ -16,16 +16,17 @@ evaluable node such that each node's local constraint holds; the fuel-indexed ev
 (`eval_live`); every construction step extends the valuation (`Spec`), a hole is bound by adding the constraint of
 that hole only; `Spec` quantifies over the start graph, so a scope may be expanded any number of times.
 
-What is proved:  `C03_coherence_partial` — structural induction over every *shallow* expression: `wrap` operators
-(label / apply / train / mapper slots in every combination, builders shared between slots, stateful or not),
-`payload.MapReduce`, `payload.Dump`/`Sniff`, `ensemble.FullStack` (any number of bases and folds; scope expanded once
-per fold, every base copied once per fold with `Segment.copy`, stacker/reducer forks shared per group) and `>>` in
-**every** nesting and parenthesisation — as long as no `FullStack` sits inside the bases or the scope of another
-`FullStack` (`Expr.shallow`).
-What is not: a stacking ensemble nested in the bases or the scope of another one.  The induction would need the
-ensemble's own graph as a copyable *region* (`Spec True`: the `reg`/`sep`/`closed` fields of `TrunkOk`), which is
-proved for every other operator but not for `composeStack` (`spec_stack` yields `Spec False`); `C03_coherence_full`
-stays open for those expressions, which are covered by the executable model + the correspondence check + the oracle.
+What is proved:  `C03_coherence : C03_coherence_full` — structural induction over **every** expression the library
+accepts: `wrap` operators (label / apply / train / mapper slots in every combination, builders shared between slots,
+stateful or not), `payload.MapReduce`, `payload.Dump`/`Sniff`, `ensemble.FullStack` (any number of bases and folds;
+scope expanded once per fold, every base copied once per fold with `Segment.copy`, stacker/reducer forks shared per
+group) and `>>` in every nesting and parenthesisation — including a `FullStack` inside the bases or the scope of another
+`FullStack`, to any depth.  The induction hypothesis is `Spec True`: the graph an expression composes is certified *and*
+its apply path is a copyable region (`reg`/`regTail`/`sep`/`closed` of `TrunkOk`: closed under inputs, separated from
+the train and label paths, evaluable), which is what `Segment.copy` of an enclosing ensemble consumes; `spec_stack`
+re-establishes it for the ensemble's own graph (`Lemmas/C03Areg.lean`: the apply side of the graph under construction —
+fold expansions, base expansions, reducer forks, apply collector — is tracked through the three loops of the ensemble;
+the held-out copies, stackers and the train/label collectors stay off it).
 -/
 import ForML.Lemmas.C03WrapSpec
 import ForML.Lemmas.C03MapReduce
@@ -63,7 +64,8 @@ def Expr.isStack : Expr → Bool
   | .stack .. => true
   | _ => false
 
-/-- the fragment inside the induction: no stacking ensemble inside the bases or the scope of another one.
+/-- the fragment the induction covered before `spec_stack` re-established the region certificate: no stacking ensemble
+inside the bases or the scope of another one (kept to state `C03_coherence_partial`, now a corollary of `C03_coherence`).
 (The scope handed to `r` by `l >> r` is `l`, unless `r` is itself a `>>`, which expands its own left side.) -/
 def Expr.shallow : Expr → Bool
   | .seq l r => l.shallow && r.shallow && (l.stackFree || !r.isStack)
@@ -112,7 +114,7 @@ private theorem denoteC_seq_origin (l r : Expr) :
 /-- every stack-free expression realises its denotation: composed onto any scope (`compose`) and expanded on its own
 (`expand`), at either certification level (`full = True`: the graph built is moreover a copyable region).
 Structural induction; `>>` expands its right side with the left side as *its* scope. -/
-private theorem realises : ∀ (e : Expr), e.stackFree = true → e.trainable = true → ∀ (full : Prop),
+private theorem realisesSF : ∀ (e : Expr), e.stackFree = true → e.trainable = true → ∀ (full : Prop),
     (∀ (scope : GraphM Trunk) (S : Scope), Spec full scope S → Spec full (compose e scope) (denoteC e S)) ∧
       Spec full (expand e) (denoteC e Scope.origin)
   | .wrap lab app trn, _, _, full => by
@@ -133,8 +135,8 @@ private theorem realises : ∀ (e : Expr), e.stackFree = true → e.trainable = 
   | .seq l r, hsf, htr, full => by
     have hsf' : l.stackFree = true ∧ r.stackFree = true := by simpa [Expr.stackFree] using hsf
     have htr' : l.trainable = true ∧ r.trainable = true := by simpa [Expr.trainable] using htr
-    have ihl := realises l hsf'.1 htr'.1 full
-    have ihr := realises r hsf'.2 htr'.2 full
+    have ihl := realisesSF l hsf'.1 htr'.1 full
+    have ihr := realisesSF r hsf'.2 htr'.2 full
     have hm : Spec full (compose r (expand l)) (denoteC r (denoteC l Scope.origin)) := ihr.1 _ _ ihl.2
     refine ⟨fun scope S hs => ?_, ?_⟩
     · rw [compose]
@@ -155,81 +157,75 @@ private theorem shallow_of_stackFree : ∀ (e : Expr), e.stackFree = true → e.
     have h' : l.stackFree = true ∧ r.stackFree = true := by simpa [Expr.stackFree] using h
     simp [Expr.shallow, shallow_of_stackFree l h'.1, shallow_of_stackFree r h'.2, h'.1]
 
-/-- the bases of a stacking ensemble, paired with their meanings: each one a copyable, input-independent region -/
-private theorem bases_ok : ∀ (bases : List Expr), bases.all Expr.stackFree = true → Expr.trainableAll bases = true →
-    ∃ pairs : List (GraphM Trunk × Scope), pairs.map (·.1) = expandAll bases ∧ pairs.map (·.2) = denoteAll bases ∧
-      ∀ p ∈ pairs, Spec True p.1 p.2 ∧ p.2.Indep
-  | [], _, _ => ⟨[], by simp [expandAll], by simp [denoteAll], fun p hp => by cases hp⟩
-  | b :: bs, hsf, htr => by
-    have hsf' : b.stackFree = true ∧ bs.all Expr.stackFree = true := by simpa using hsf
-    have htr' : b.trainable = true ∧ Expr.trainableAll bs = true := by simpa [Expr.trainableAll] using htr
-    obtain ⟨pairs, h1, h2, h3⟩ := bases_ok bs hsf'.2 htr'.2
-    refine ⟨(expand b, denoteC b Scope.origin) :: pairs, by simp [expandAll, h1], by simp [denoteAll, h2], ?_⟩
-    intro p hp
-    rcases List.mem_cons.mp hp with e | hp
-    · subst e
-      exact ⟨(realises b hsf'.1 htr'.1 True).2, indep_denoteC b _ indep_origin⟩
-    · exact h3 p hp
+private theorem expandAll_ne_nil : ∀ (bases : List Expr), bases ≠ [] → expandAll bases ≠ []
+  | [], h => absurd rfl h
+  | b :: bs, _ => by simp [expandAll]
 
-/-- every shallow expression realises its denotation: composed onto a copyable, input-independent scope; composed onto
-any certified scope if it is not itself an ensemble (then the scope is expanded exactly once); expanded on its own -/
-private theorem realisesShallow : ∀ (e : Expr), e.shallow = true → e.trainable = true →
-    (∀ (scope : GraphM Trunk) (S : Scope), Spec True scope S → S.Indep → Spec False (compose e scope) (denoteC e S)) ∧
-    (e.isStack = false → ∀ (scope : GraphM Trunk) (S : Scope), Spec False scope S →
-      Spec False (compose e scope) (denoteC e S)) ∧
-    Spec False (expand e) (denoteC e Scope.origin)
-  | .wrap lab app trn, _, htr => by
-    have h := realises (.wrap lab app trn) rfl htr
-    exact ⟨fun scope S hs _ => (h False).1 scope S (hs.weaken (fun x => x.elim)), fun _ => (h False).1, (h False).2⟩
-  | .mapreduce ms red, _, htr => by
-    have h := realises (.mapreduce ms red) rfl htr
-    exact ⟨fun scope S hs _ => (h False).1 scope S (hs.weaken (fun x => x.elim)), fun _ => (h False).1, (h False).2⟩
-  | .debug a t, _, htr => by
-    have h := realises (.debug a t) rfl htr
-    exact ⟨fun scope S hs _ => (h False).1 scope S (hs.weaken (fun x => x.elim)), fun _ => (h False).1, (h False).2⟩
-  | .stack bases n sp ap st rd, hsh, htr => by
-    have htr' : Expr.trainableAll bases = true := by
-      simp only [Expr.trainable, Bool.and_eq_true] at htr; exact htr.2
-    obtain ⟨pairs, h1, h2, h3⟩ := bases_ok bases (by simpa [Expr.shallow] using hsh) htr'
-    refine ⟨fun scope S hs hS => ?_, fun h => by simp [Expr.isStack] at h, ?_⟩
-    · rw [compose, denoteC, ← h1, ← h2]; exact spec_stack hs hS pairs h3 n sp ap st rd
-    · rw [expand, denoteC, ← h1, ← h2]; exact spec_stack spec_new indep_origin pairs h3 n sp ap st rd
-  | .seq l r, hsh, htr => by
-    have hsh' : (l.shallow = true ∧ r.shallow = true) ∧ (l.stackFree = true ∨ r.isStack = false) := by
-      simpa [Expr.shallow] using hsh
-    have htr' : l.trainable = true ∧ r.trainable = true := by simpa [Expr.trainable] using htr
-    have ihl := realisesShallow l hsh'.1.1 htr'.1
-    have ihr := realisesShallow r hsh'.1.2 htr'.2
-    have hm : Spec False (compose r (expand l)) (denoteC r (denoteC l Scope.origin)) := by
-      rcases hsh'.2 with h | h
-      · exact ihr.1 _ _ (realises l h htr'.1 True).2 (indep_denoteC l _ indep_origin)
-      · exact ihr.2.1 h _ _ ihl.2.2
-    have hc : ∀ (scope : GraphM Trunk) (S : Scope), Spec False scope S →
-        Spec False (compose (.seq l r) scope) (denoteC (.seq l r) S) := by
-      intro scope S hs
-      rw [compose]
-      have : denoteC (.seq l r) S = seqSem S (denoteC r (denoteC l Scope.origin)) := by
-        rw [denoteC]; rfl
-      rw [this]
-      exact spec_seq hs hm
-    refine ⟨fun scope S hs _ => hc scope S (hs.weaken (fun x => x.elim)), fun _ => hc, ?_⟩
-    rw [expand, denoteC_seq_origin]
-    exact hm
+mutual
+  /-- **every** accepted expression realises its denotation as a copyable region: composed onto any copyable,
+  input-independent certified scope (`compose`; the scope may be expanded any number of times), and expanded on its own
+  (`expand`).  Structural induction; `>>` expands its right side with the left side as *its* scope; the stacking
+  ensemble consumes the region certificates of its scope and of its base models (`Segment.copy`) and re-establishes one
+  for its own graph (`spec_stack`). -/
+  private theorem realises : ∀ (e : Expr), e.trainable = true →
+      (∀ (scope : GraphM Trunk) (S : Scope), Spec True scope S → S.Indep → Spec True (compose e scope) (denoteC e S)) ∧
+        Spec True (expand e) (denoteC e Scope.origin)
+    | .wrap lab app trn, htr => by
+      have h := realisesSF (.wrap lab app trn) rfl htr True
+      exact ⟨fun scope S hs _ => h.1 scope S hs, h.2⟩
+    | .mapreduce ms red, htr => by
+      have h := realisesSF (.mapreduce ms red) rfl htr True
+      exact ⟨fun scope S hs _ => h.1 scope S hs, h.2⟩
+    | .debug a t, htr => by
+      have h := realisesSF (.debug a t) rfl htr True
+      exact ⟨fun scope S hs _ => h.1 scope S hs, h.2⟩
+    | .stack bases n sp ap st rd, htr => by
+      have htr' : (bases ≠ [] ∧ 2 ≤ n) ∧ Expr.trainableAll bases = true := by
+        simpa [Expr.trainable] using htr
+      obtain ⟨pairs, h1, h2, h3⟩ := realisesAll bases htr'.2
+      have hne : pairs ≠ [] := by
+        intro e
+        have := expandAll_ne_nil bases htr'.1.1
+        rw [← h1, e] at this
+        exact this rfl
+      have hn : 0 < n := by have := htr'.1.2; omega
+      refine ⟨fun scope S hs hS => ?_, ?_⟩
+      · rw [compose, denoteC, ← h1, ← h2]; exact spec_stack hs hS pairs h3 hne n sp ap st rd hn
+      · rw [expand, denoteC, ← h1, ← h2]; exact spec_stack spec_new indep_origin pairs h3 hne n sp ap st rd hn
+    | .seq l r, htr => by
+      have htr' : l.trainable = true ∧ r.trainable = true := by simpa [Expr.trainable] using htr
+      have ihl := realises l htr'.1
+      have ihr := realises r htr'.2
+      have hm : Spec True (compose r (expand l)) (denoteC r (denoteC l Scope.origin)) :=
+        ihr.1 _ _ ihl.2 (indep_denoteC l _ indep_origin)
+      refine ⟨fun scope S hs _ => ?_, ?_⟩
+      · rw [compose]
+        have : denoteC (.seq l r) S = seqSem S (denoteC r (denoteC l Scope.origin)) := by
+          rw [denoteC]; rfl
+        rw [this]
+        exact spec_seq hs hm
+      · rw [expand, denoteC_seq_origin]
+        exact hm
 
-/-! ### property theorems -/
+  /-- the bases of a stacking ensemble, paired with their meanings: each one a copyable, input-independent region -/
+  private theorem realisesAll : ∀ (bases : List Expr), Expr.trainableAll bases = true →
+      ∃ pairs : List (GraphM Trunk × Scope), pairs.map (·.1) = expandAll bases ∧ pairs.map (·.2) = denoteAll bases ∧
+        ∀ p ∈ pairs, Spec True p.1 p.2 ∧ p.2.Indep
+    | [], _ => ⟨[], by simp [expandAll], by simp [denoteAll], fun p hp => by cases hp⟩
+    | b :: bs, htr => by
+      have htr' : b.trainable = true ∧ Expr.trainableAll bs = true := by simpa [Expr.trainableAll] using htr
+      obtain ⟨pairs, h1, h2, h3⟩ := realisesAll bs htr'.2
+      refine ⟨(expand b, denoteC b Scope.origin) :: pairs, by simp [expandAll, h1], by simp [denoteAll, h2], ?_⟩
+      intro p hp
+      rcases List.mem_cons.mp hp with e | hp
+      · subst e
+        exact ⟨(realises b htr'.1).2, indep_denoteC b _ indep_origin⟩
+      · exact h3 p hp
+end
 
-/-- the evaluator agrees with any certified valuation on every live port (the tool all coherence proofs use) -/
-theorem C03_eval_certified {g : Graph} {W : World} (hi : Inv g W) (ρ : Nat → Val)
-    (hρ : ∀ n, W.live n → g.isOpen n → ∀ i, W.σ ⟨n, i⟩ = ρ n) (p : PubRef) (hl : W.live p.node) :
-    eval g ρ g.fuel p = some (W.σ p) := eval_live hi ρ hρ p hl
-
-/-- **Coherence, shallow fragment** (all wrap operator shapes, map-reduce, debug operators, the stacking ensemble over
-stack-free bases and scope, every nesting and explicit scoping of `>>`): the composed train-mode graph trains each
-stateful actor on exactly the features/labels the preceding path produces and passes on the output of the freshly
-trained actor; the apply-mode graph applies the same actors with those states in the same order; i.e. `run e = ⟦e⟧`.
-Missing from the induction: a stacking ensemble inside the bases or the scope of another one. -/
-theorem C03_coherence_partial (e : Expr) (hsh : e.shallow = true) (htr : e.trainable = true) : Coherent e := by
-  obtain ⟨t, g', W', hrun, hok⟩ := (realisesShallow e hsh htr).2.2 {} World.empty (.input 0) (.input 1) (.input 2) 0
+/-- a certified expansion from the empty graph evaluates to the denotation -/
+private theorem coherent_of_spec {e : Expr} (hspec : Spec True (expand e) (denoteC e Scope.origin)) : Coherent e := by
+  obtain ⟨t, g', W', hrun, hok⟩ := hspec {} World.empty (.input 0) (.input 1) (.input 2) 0
     inv_empty Wired.empty (Nat.le_refl _)
   have hexp : expand e {} = .ok (t, g') := hrun
   obtain ⟨d1, d2, d3⟩ := hok.distinct
@@ -267,46 +263,73 @@ theorem C03_coherence_partial (e : Expr) (hsh : e.shallow = true) (htr : e.train
   · show trainedStates g' (inputs t) g'.fuel g'.trains = _
     rw [hst, hstates]; rfl
 
-/-- the same statement for an expression composed onto an arbitrary *certified* scope and start graph: whatever
-the scope realises, `scope >> e`'s graphs realise `⟦e⟧` over it (this is the induction hypothesis made public:
-it is what lets a scope-wrapping operator expand its left side several times). -/
-theorem C03_compose_realises (e : Expr) (hsf : e.stackFree = true) (htr : e.trainable = true)
-    (scope : GraphM Trunk) (S : Scope) (hs : Spec True scope S) : Spec True (compose e scope) (denoteC e S) :=
-  (realises e hsf htr True).1 scope S hs
+/-! ### property theorems -/
 
-/-- the induction case of the stacking ensemble made public: over stack-free acceptable bases and any copyable,
-input-independent certified scope (in particular: every stack-free expression's expansion), from any certified start
+/-- the evaluator agrees with any certified valuation on every live port (the tool all coherence proofs use) -/
+theorem C03_eval_certified {g : Graph} {W : World} (hi : Inv g W) (ρ : Nat → Val)
+    (hρ : ∀ n, W.live n → g.isOpen n → ∀ i, W.σ ⟨n, i⟩ = ρ n) (p : PubRef) (hl : W.live p.node) :
+    eval g ρ g.fuel p = some (W.σ p) := eval_live hi ρ hρ p hl
+
+/-- **C03, coherence at full strength**: for every expression the operator library accepts — `wrap` operators in every
+slot combination, `MapReduce`, debug operators, the stacking ensemble (also nested in the bases or in the scope of another
+one, to any depth) and `>>` in every nesting and explicit scoping — the composed train-mode graph trains each stateful
+actor on exactly the features/labels the preceding path produces and passes on the output of the freshly trained actor;
+the apply-mode graph applies the same actors with those states in the same order; i.e. `run e = ⟦e⟧`. -/
+theorem C03_coherence : C03_coherence_full :=
+  fun e htr => coherent_of_spec (realises e htr).2
+
+/-- the shallow fragment of the previous rounds (no ensemble in the bases or scope of another one): a corollary -/
+theorem C03_coherence_partial (e : Expr) (_hsh : e.shallow = true) (htr : e.trainable = true) : Coherent e :=
+  C03_coherence e htr
+
+/-- the same statement for an expression composed onto an arbitrary *certified* scope and start graph: whatever a
+copyable, input-independent scope realises, `scope >> e`'s graphs realise `⟦e⟧` over it — and are a copyable region
+again (this is the induction hypothesis made public: it is what lets a scope-wrapping operator expand its left side
+several times, and what lets ensembles nest). -/
+theorem C03_compose_realises (e : Expr) (htr : e.trainable = true)
+    (scope : GraphM Trunk) (S : Scope) (hs : Spec True scope S) (hS : S.Indep) : Spec True (compose e scope) (denoteC e S) :=
+  (realises e htr).1 scope S hs hS
+
+/-- for a stack-free expression the scope is expanded exactly once and need not be input-independent -/
+theorem C03_compose_realises_stackfree (e : Expr) (hsf : e.stackFree = true) (htr : e.trainable = true)
+    (scope : GraphM Trunk) (S : Scope) (hs : Spec True scope S) : Spec True (compose e scope) (denoteC e S) :=
+  (realisesSF e hsf htr True).1 scope S hs
+
+/-- the induction case of the stacking ensemble made public: over **any** acceptable bases (ensembles included) and any
+copyable, input-independent certified scope (in particular: every expression's expansion), from any certified start
 graph, the graph `FullStack.compose` builds — scope expanded once per fold, every base copied once per fold, all
-copies of a base's actor in one group per fold — evaluates to the documented cross-validated stacking semantics. -/
-theorem C03_stack_realises_partial (bases : List Expr) (hsf : bases.all Expr.stackFree = true)
-    (htr : Expr.trainableAll bases = true) (n splitter appender stacker reducer : Nat)
+copies of a base's actor in one group per fold — evaluates to the documented cross-validated stacking semantics, and
+its apply path is a closed, separated, evaluable region (`Spec True`), so that an enclosing ensemble can copy it. -/
+theorem C03_stack_realises (bases : List Expr) (hne : bases ≠ []) (htr : Expr.trainableAll bases = true)
+    (n splitter appender stacker reducer : Nat) (hn : 0 < n)
     (scope : GraphM Trunk) (S : Scope) (hs : Spec True scope S) (hS : S.Indep) :
-    Spec False (compose (.stack bases n splitter appender stacker reducer) scope)
+    Spec True (compose (.stack bases n splitter appender stacker reducer) scope)
       (denoteC (.stack bases n splitter appender stacker reducer) S) := by
-  obtain ⟨pairs, h1, h2, h3⟩ := bases_ok bases hsf htr
+  obtain ⟨pairs, h1, h2, h3⟩ := realisesAll bases htr
+  have hpne : pairs ≠ [] := by
+    intro e
+    have := expandAll_ne_nil bases hne
+    rw [← h1, e] at this
+    exact this rfl
   rw [compose, denoteC, ← h1, ← h2]
-  exact spec_stack hs hS pairs h3 n splitter appender stacker reducer
+  exact spec_stack hs hS pairs h3 hpne n splitter appender stacker reducer hn
 
 /-- scoping is semantic: `a >> (b >> c)` hands `c` the scope `b`, `(a >> b) >> c` hands it `a >> b` — both are inside
-the theorem, and for the fragment both graphs evaluate to their own denotation -/
-theorem C03_scoping (a b c : Expr) (hsf : (a.stackFree && b.stackFree && c.stackFree) = true)
-    (htr : (a.trainable && b.trainable && c.trainable) = true) :
+the theorem, and both graphs evaluate to their own denotation (for every accepted `a`, `b`, `c`, ensembles included) -/
+theorem C03_scoping (a b c : Expr) (htr : (a.trainable && b.trainable && c.trainable) = true) :
     Coherent (.seq a (.seq b c)) ∧ Coherent (.seq (.seq a b) c) := by
-  have h1 : a.stackFree = true ∧ b.stackFree = true ∧ c.stackFree = true := by
-    simp only [Bool.and_eq_true] at hsf; exact ⟨hsf.1.1, hsf.1.2, hsf.2⟩
   have h2 : a.trainable = true ∧ b.trainable = true ∧ c.trainable = true := by
     simp only [Bool.and_eq_true] at htr; exact ⟨htr.1.1, htr.1.2, htr.2⟩
-  exact ⟨C03_coherence_partial _ (shallow_of_stackFree _ (by simp [Expr.stackFree, h1])) (by simp [Expr.trainable, h2]),
-    C03_coherence_partial _ (shallow_of_stackFree _ (by simp [Expr.stackFree, h1])) (by simp [Expr.trainable, h2])⟩
+  exact ⟨C03_coherence _ (by simp [Expr.trainable, h2]), C03_coherence _ (by simp [Expr.trainable, h2])⟩
 
-/-- **Repeated expansion, shallow fragment**: expanding the same expression twice (as an ensembling operator does
+/-- **Repeated expansion** (every accepted expression): expanding the same expression twice (as an ensembling operator does
 with its scope) yields two independent graphs.  In the graph holding both expansions
 * nothing the first expansion built is touched by the second (`Frame`: every node, subscription and trainer lookup
   below `g1.next` is unchanged), every node the second makes evaluable and every group such a node belongs to is
   new (no shared node, no shared group — hence no shared state);
 * fed with *different* inputs, each trunk evaluates to `⟦e⟧` of its own inputs, and the states trained are those of
   `⟦e⟧` on the first inputs followed by those of `⟦e⟧` on the second inputs: no state of one depends on the other. -/
-theorem C03_independent_expansions_partial (e : Expr) (hsh : e.shallow = true) (htr : e.trainable = true)
+theorem C03_independent_expansions (e : Expr) (htr : e.trainable = true)
     (a1 t1 l1 a2 t2 l2 : Val) :
     ∃ (T1 : Trunk) (g1 : Graph) (T2 : Trunk) (g2 : Graph) (W2 : World), expand e {} = .ok (T1, g1) ∧ expand e g1 = .ok (T2, g2) ∧ Frame g1 g2 ∧
       (∀ n, g1.next ≤ n → W2.live n → ∀ gid a i o, g2.kindOf n = some (.worker gid a i o) → g1.next ≤ gid) ∧
@@ -321,7 +344,7 @@ theorem C03_independent_expansions_partial (e : Expr) (hsh : e.shallow = true) (
         eval g2 ρ g2.fuel T2.apply.publisher = some (denote e a2 t2 l2).apply ∧
         eval g2 ρ g2.fuel T2.label.publisher = some (denote e a2 t2 l2).label ∧
         trainedStates g2 ρ g2.fuel g2.trains = some ((denote e a1 t1 l1).states ++ (denote e a2 t2 l2).states) := by
-  have hspec := (realisesShallow e hsh htr).2.2
+  have hspec := (realises e htr).2
   obtain ⟨T1, g1, W1, hrun1, ok1⟩ := hspec {} World.empty a1 t1 l1 0 inv_empty Wired.empty (Nat.le_refl _)
   obtain ⟨T2, g2, W2, hrun2, ok2⟩ := hspec g1 W1 a2 t2 l2 0 ok1.inv ok1.wired (Nat.zero_le _)
   have hlt1 : ∀ n, W1.live n → n < g1.next := fun n hn => (ok1.inv.liveLt n hn).1
@@ -397,7 +420,7 @@ theorem C03_debug_stateless_refused (a t : Actor) (ht : t.stateful = false) (sco
   simp only [bind_apply, h1, h2]
   simp [train, ht]
 
-/-! ### non-vacuity: concrete expressions inside the fragment -/
+/-! ### non-vacuity: concrete expressions satisfying the hypotheses -/
 
 example : (Expr.seq (.wrap (some ⟨1, true⟩) none none)
     (.seq (.wrap none (some ⟨2, true⟩) (some ⟨2, true⟩)) (.mapreduce [⟨3, true⟩, ⟨4, false⟩] 5))).stackFree = true := by decide
@@ -405,21 +428,39 @@ example : (Expr.seq (.wrap (some ⟨1, true⟩) none none)
 example : (Expr.seq (.debug ⟨1, false⟩ ⟨2, true⟩) (.wrap (some ⟨3, true⟩) (some ⟨3, true⟩) (some ⟨4, false⟩))).trainable = true := by
   decide
 
-/-- the hypotheses of `C03_coherence_partial` hold for a three-operator pipeline with a label operator, a shared
+/-- the hypothesis of `C03_coherence` holds for a three-operator pipeline with a label operator, a shared
 mapper and a map-reduce: it is coherent -/
 example : Coherent (.seq (.wrap (some ⟨1, true⟩) none none)
     (.seq (.wrap none (some ⟨2, true⟩) (some ⟨2, true⟩)) (.mapreduce [⟨3, true⟩, ⟨4, false⟩] 5))) :=
-  C03_coherence_partial _ (by decide) (by decide)
+  C03_coherence _ (by decide)
 
 /-- ... and for `mapper >> FullStack(estimator, mapper >> estimator; 3 folds) >> estimator`: it is coherent -/
 example : Coherent (.seq (.seq (.wrap none (some ⟨1, true⟩) (some ⟨1, true⟩))
     (.stack [.wrap none (some ⟨2, true⟩) (some ⟨2, true⟩),
       .seq (.wrap none (some ⟨3, true⟩) (some ⟨3, true⟩)) (.wrap none (some ⟨4, true⟩) (some ⟨4, true⟩))] 3 5 6 7 8))
     (.wrap none (some ⟨9, true⟩) (some ⟨9, true⟩))) :=
-  C03_coherence_partial _ (by decide) (by decide)
+  C03_coherence _ (by decide)
 
-/-- outside the fragment: an ensemble stacked on an ensemble -/
+/-- nested ensembles (outside the shallow fragment of the earlier rounds): an ensemble stacked on an ensemble ... -/
 example : (Expr.seq (.stack [.wrap none none none] 2 0 0 0 0) (.stack [.wrap none none none] 2 0 0 0 0)).shallow = false := by
   decide
+
+example : Coherent (.seq (.stack [.wrap none (some ⟨1, true⟩) (some ⟨1, true⟩)] 2 2 3 4 5)
+    (.stack [.wrap none (some ⟨6, true⟩) (some ⟨6, true⟩)] 2 7 8 9 10)) :=
+  C03_coherence _ (by decide)
+
+/-- ... an ensemble whose base model is `ensemble >> debug >> estimator`, behind a label operator and a mapper ... -/
+example : Coherent (.seq (.seq (.wrap (some ⟨1, true⟩) none none) (.wrap none (some ⟨2, true⟩) (some ⟨2, true⟩)))
+    (.stack [.seq (.seq (.stack [.wrap none (some ⟨3, true⟩) (some ⟨3, true⟩), .mapreduce [⟨4, true⟩, ⟨5, false⟩] 6] 2 7 8 9 10)
+        (.debug ⟨11, false⟩ ⟨12, true⟩)) (.wrap none (some ⟨13, true⟩) (some ⟨13, true⟩)),
+      .wrap none (some ⟨14, false⟩) (some ⟨14, false⟩)] 3 15 16 17 18)) :=
+  C03_coherence _ (by decide)
+
+/-- ... and `(mapper >> ensemble) >> ensemble`: the scope of the second ensemble — expanded once per fold and copied —
+contains the first one -/
+example : Coherent (.seq (.seq (.wrap none (some ⟨1, true⟩) (some ⟨1, true⟩))
+      (.stack [.wrap none (some ⟨2, true⟩) (some ⟨2, true⟩)] 2 3 4 5 6))
+    (.stack [.stack [.wrap none (some ⟨7, true⟩) (some ⟨7, true⟩)] 2 8 9 10 11] 2 12 13 14 15)) :=
+  C03_coherence _ (by decide)
 
 end ForML.Compose
